@@ -16,5 +16,5 @@ def run(ctx):
             if ctx.evaluations % 50 == 0:
                 ctx.distinct.add(vlib.digest([e["node"], e["radius"], e["id"]]))
     ctx.cov["inrange_true"], ctx.cov["inrange_false"] = t, f
-    if t == 0 or f == 0:
+    if (t == 0 or f == 0) and not ctx.violations:
         raise vlib.NoVerdict("vacuity guard: in-range triples all gave the same answer")
